@@ -95,7 +95,8 @@ fn get_patient(src: Ipv4Addr, dst: SocketAddr, path: &str) -> Result<Resp, Strin
     }
 }
 
-const ENTRIES: [&str; 6] = ["127.0.0.1", "127.0.0.2/32", "127.0.0.0/30", "127.0.1.0/24", "10.0.0.0/8", "::1/128"];
+// incl. the catch-all of each address family: `::/0` contains no IPv4 peer, `0.0.0.0/0` every one
+const ENTRIES: [&str; 8] = ["127.0.0.1", "127.0.0.2/32", "127.0.0.0/30", "127.0.1.0/24", "10.0.0.0/8", "::1/128", "::/0", "0.0.0.0/0"];
 const PEERS: [[u8; 4]; 8] = [[127, 0, 0, 1], [127, 0, 0, 2], [127, 0, 0, 3], [127, 0, 0, 4], [127, 0, 1, 0], [127, 0, 1, 255], [127, 0, 2, 0], [127, 1, 1, 1]];
 const PATHS: [&str; 4] = ["/", "/metrics", "/health", "/healthz"];
 /// "any path": also long ones (a request head of 9 kB and of 60 kB; http::Uri allows up to 65534 bytes)
@@ -559,7 +560,7 @@ fn upkeep_part(ctx: &Ctx, res: &mut PartResult, depth: usize) {
 }
 
 // ------------------------------------------------------------------ IPv6 listener, IPv6 peer (::1)
-const ENTRIES6: [&str; 8] = ["::1", "::1/128", "::/64", "::/8", "fe80::/10", "2001:db8::/32", "127.0.0.1", "0.0.0.0/8"];
+const ENTRIES6: [&str; 10] = ["::1", "::1/128", "::/64", "::/8", "fe80::/10", "2001:db8::/32", "127.0.0.1", "0.0.0.0/8", "0.0.0.0/0", "::/0"];
 
 /// independent CIDR arithmetic for an IPv6 peer; an IPv4 network never contains an IPv6 peer
 fn in_net6(entry: &str, peer: std::net::Ipv6Addr) -> bool {
@@ -806,7 +807,7 @@ fn main() {
     driver::main(CheckDef {
         prop: "C18",
         level: "fault_enumeration",
-        rule: "allowlists = none and all subsets of size 1-2 (thorough: ordered pairs and subsets of size 3) of {127.0.0.1 (plain address), 127.0.0.2/32, 127.0.0.0/30, 127.0.1.0/24, 10.0.0.0/8, ::1/128} x peers bound to {127.0.0.1,.2,.3,.4, 127.0.1.0, 127.0.1.255, 127.0.2.0, 127.1.1.1} x paths {/, /metrics, /health, /healthz; from two of the peers also a 9 kB path and a 60 kB query string}, one request each against a fresh real exporter (builder.build() on a tokio runtime); oracle: independent CIDR arithmetic; inside => 200 and the body parses (strict parser) to exactly the recorded state, /health => OK; outside => 403 with an empty body; plus all disturbance sequences of length <= 2 (thorough 3) over {garbage bytes, half a request then idle, connect + RST, 8 concurrent scrapers, 4 refused scrapes, a silent connection held open by a refused peer, a keep-alive connection idling after its answer held by a refused peer and by an allowed peer} each followed by probes that must be served; a scripted fault history in which accept() itself fails for lack of file descriptors (EMFILE) and descriptors are then released; plus an exporter listening on [::1] scraped from ::1 under no allowlist and all subsets of size 1-2 of {::1, ::1/128, ::/64, ::/8, fe80::/10, 2001:db8::/32, 127.0.0.1, 0.0.0.0/8} (an IPv4 network never admits an IPv6 peer); plus all sequences (depth <= 3 quick / 5 thorough) over {record, scrape, wait for the exporter's periodic upkeep task (15 ms period)}: every scrape reports exactly the samples recorded so far; distinct_nontrivial = distinct (allowlist, peer, outcome) / (sequence, outcome) cases",
+        rule: "allowlists = none and all subsets of size 1-2 (thorough: ordered pairs and subsets of size 3) of {127.0.0.1 (plain address), 127.0.0.2/32, 127.0.0.0/30, 127.0.1.0/24, 10.0.0.0/8, ::1/128, ::/0, 0.0.0.0/0} x peers bound to {127.0.0.1,.2,.3,.4, 127.0.1.0, 127.0.1.255, 127.0.2.0, 127.1.1.1} x paths {/, /metrics, /health, /healthz; from two of the peers also a 9 kB path and a 60 kB query string}, one request each against a fresh real exporter (builder.build() on a tokio runtime); oracle: independent CIDR arithmetic; inside => 200 and the body parses (strict parser) to exactly the recorded state, /health => OK; outside => 403 with an empty body; plus all disturbance sequences of length <= 2 (thorough 3) over {garbage bytes, half a request then idle, connect + RST, 8 concurrent scrapers, 4 refused scrapes, a silent connection held open by a refused peer, a keep-alive connection idling after its answer held by a refused peer and by an allowed peer} each followed by probes that must be served; a scripted fault history in which accept() itself fails for lack of file descriptors (EMFILE) and descriptors are then released; plus an exporter listening on [::1] scraped from ::1 under no allowlist and all subsets of size 1-2 of {::1, ::1/128, ::/64, ::/8, fe80::/10, 2001:db8::/32, 127.0.0.1, 0.0.0.0/8} (an IPv4 network never admits an IPv6 peer); plus all sequences (depth <= 3 quick / 5 thorough) over {record, scrape, wait for the exporter's periodic upkeep task (15 ms period)}: every scrape reports exactly the samples recorded so far; distinct_nontrivial = distinct (allowlist, peer, outcome) / (sequence, outcome) cases",
         assumptions: &["tokio / hyper task scheduling runs free: request histories are enumerated, not the server's internal interleavings", "a response is awaited 3 s and then once more for 30 s before 'not served' is reported"],
         parts,
         run,
